@@ -662,6 +662,28 @@ def check_c09_structure(viol, plan, texts, G, clock, budget, probe):
             viol.add("C09", "bounding_gate_definition", "mismatch", "measure")
             break
     probe("c09_structure")
+    # a gate table without prepare_all / measure_all: the bounding gates must be fresh plain
+    # definitions of exactly those names, not objects that belong to another circuit
+    from jaqalpaq.core.gatedef import GateDefinition as _GD
+
+    G2 = {k: v for k, v in G.items() if k not in GS.BUSY}
+
+    def job2():
+        c2 = parse_jaqal_string(tA, inject_pulses=G2, autoload_pulses=False)
+        return c2, expand_subcircuits(c2)
+
+    o2 = seams.outcome_of(job2, clock, budget)
+    if o2["kind"] == "ok":
+        c2, e2 = o2["value"]
+        for g in extract.iter_gates(e2):
+            if g.name in GS.BUSY and not _in_source(g, c2):
+                gd = g.gate_def
+                if type(gd) is not _GD or gd.parameters or any(gd is x for x in G.values()):
+                    viol.add("C09", "bounding_gate_fresh_definition", "mismatch", g.name, "type %s" % type(gd).__name__)
+                    break
+        probe("c09_no_native_bounding_gates")
+    elif o2["kind"] not in ("JaqalError",):
+        viol.add("C09", "expand_subcircuits_runs", o2["kind"], o2.get("where", ""), "gate table without bounding gates: %s" % o2.get("exc"))
 
 
 def _in_source(g, circuit):
